@@ -12,7 +12,7 @@ from harness.readers import call, judge_read
 
 PROPERTY = "C10"
 PROPS_FILE = "Props/C10.v"
-MODEL_FILES = ["Model/Vmdk.v", "Model/VmdkDesc.v"]
+MODEL_FILES = ["Model/Vmdk.v", "Model/VmdkDesc.v", "Model/Hdd.v", "Proofs/Layers.v"]
 META = {
     "category": "proof",
     "text": "Coq theorems: the model of DiskDescriptor.parse + a backtracking matcher for RE_EXTENT_DESCRIPTOR (alternatives "
